@@ -294,6 +294,8 @@ package jet
 //@   callsite (*Runtime).evalPrimaryExpressionGroup 2 requires [ternary-evaluates-the-first-branch-only-when-true] {C04} node == as(caller.node, "*TernaryExprNode").Left && lastret("isTrue", 0)
 //@   callsite (*Runtime).evalPrimaryExpressionGroup 3 requires [ternary-evaluates-the-second-branch-only-when-false] {C04} node == as(caller.node, "*TernaryExprNode").Right && !lastret("isTrue", 0)
 //@   callsite (*Runtime).evalPrimaryExpressionGroup count 9
+//@   callsite (reflect.Value).Slice 0 requires [an-omitted-end-index-means-the-length-of-the-operand] {C06} as(caller.node, "*SliceExprNode").EndIndex == nil ==> j == RvLen(v)
+//@   callsite (reflect.Value).Slice 0 requires [an-omitted-start-index-means-zero] {C06} as(caller.node, "*SliceExprNode").Index == nil ==> i == 0
 //@   ensures [balanced] SameS(st)
 //@   anypanic
 //@   exsures [runtime-valid-on-panic] RtX(st)
